@@ -781,9 +781,9 @@ func runAll(c *Ctx, sh *shared, tmp string) {
 			defer func() { <-sem }()
 			dir := filepath.Join(tmp, j.sc.Name, fmt.Sprintf("run%d", j.i))
 			o, _, _, err := experiment(c, dir, j.sc, &j.cs, fmt.Sprintf("r%d", j.i))
-			if err != nil || !o.Reached {
-				// a loaded machine can make a run miss its crash point: once more
-				o, _, _, err = experiment(c, dir+"-again", j.sc, &j.cs, fmt.Sprintf("s%d", j.i))
+			for try := 0; try < 2 && (err != nil || !o.Reached || o.HeldLate); try++ {
+				// a loaded machine can make a run miss its crash point, or its timing: again
+				o, _, _, err = experiment(c, fmt.Sprintf("%s-again%d", dir, try), j.sc, &j.cs, fmt.Sprintf("s%d%d", j.i, try))
 			}
 			sh.mu.Lock()
 			defer sh.mu.Unlock()
